@@ -92,6 +92,48 @@ class Executor(Engine):
                 break
         return results + [(s_, None) for s_ in states]
 
+    def exec_with_checkpoints(self, stmts, st, c, old):
+        """the function body with CHECKPOINTS: contract key `checkpoints` = {text: [(label, expr), ..]}; after the top-level statement whose
+        first source line contains `text`, each expr (locals visible, parameters at their entry values) is PROVED in every state that
+        falls through (obligation #at[label]) and then assumed -- a cut that hands the solver the argument one link at a time"""
+        cps = c.d['checkpoints']
+        used = set()
+        states = [st]
+        results = []
+        for s in stmts:
+            nxt = []
+            for cur in states:
+                for st2, out in self.exec_stmt(s, cur):
+                    if out is None:
+                        nxt.append(st2)
+                    else:
+                        results.append((st2, out))
+            states = nxt
+            head = ast.unparse(s).split('\n')[0]
+            for key, lems in cps.items():
+                if key in head:
+                    if key in used:
+                        raise RuntimeError(f'checkpoint text {key!r} matches several statements of {c.short}')
+                    used.add(key)
+                    new_states = []
+                    for i_, cur in enumerate(states):
+                        env3 = dict(cur.env)
+                        for p_ in old:
+                            env3[p_] = old[p_]
+                        pc2 = list(cur.pc)
+                        for lab, text in lems:
+                            g, a = self.spec_bool(text, env3, old=old, ghosts=c.ghost_vals)
+                            self.obl(f'{c.short}#at[{lab}]@{s.end_lineno}:s{i_}', pc2 + a, g, 'lemma', s.end_lineno)
+                            pc2 = pc2 + a + [g]
+                        new_states.append(State(cur.env, pc2, cur.bag, cur.old))
+                    states = new_states
+            if not states:
+                break
+        missing = set(cps) - used
+        if missing and states:
+            raise RuntimeError(f'checkpoint text not found in {c.short}: {sorted(missing)}')
+        return results + [(s_, None) for s_ in states]
+
     def exec_stmt(self, s, st):
         m = getattr(self, 'st_' + type(s).__name__, None)
         if m is None:
@@ -796,7 +838,8 @@ class Executor(Engine):
         # exit
         if kind == 'dict':
             t = fresh('t', src.ty.k.sort())
-            nguard = z3.ForAll([t], z3.Select(done.t, t) == z3.Select(src.ty.has(src.t), t))
+            # every key visited: pointwise and (the same fact, by extensionality) as an equality of the two key sets
+            nguard = z3.And(z3.ForAll([t], z3.Select(done.t, t) == z3.Select(src.ty.has(src.t), t)), done.t == src.ty.has(src.t))
         elif kind == 'bag':
             t = fresh('t', src.ty.elem.sort())
             nguard = z3.ForAll([t], z3.Select(done.t, t) == z3.Select(src.t, t))
@@ -1097,7 +1140,10 @@ class Executor(Engine):
         elif isinstance(c.bag_ty, TList):
             bag0 = c.bag_ty.mk(z3.K(z3.IntSort(), z3.Const('dflt!yield', c.bag_ty.elem.sort())), z3.IntVal(0))
         st = State(env, pc, bag0, old)
-        exits = self.exec_block(fnode.body, st)
+        if c.d.get('checkpoints'):
+            exits = self.exec_with_checkpoints(fnode.body, st, c, old)
+        else:
+            exits = self.exec_block(fnode.body, st)
         npaths = 0
         for st2, o in exits:
             npaths += 1
@@ -1274,6 +1320,7 @@ def make_engine(modname, repo=None):
     eng.unions = getattr(m, 'UNIONS', {})
     eng.ctors = getattr(m, 'CTORS', {})
     eng.funcs = getattr(m, 'FUNCS', {})
+    eng.abstract_globals = getattr(m, 'GLOBALS_ABSTRACT', {})
     eng.axioms = getattr(m, 'AXIOMS', [])
     eng.sigs = {}
     eng.lemmas = getattr(m, 'LEMMAS', [])
